@@ -2,7 +2,7 @@
    bool/option/list/prod/unit/sumbool map to OCaml's; nat, positive, Z, Q stay the
    extracted inductive types (no Extract Constant / Extract Inductive of our own). *)
 From Coq Require Import Extraction ExtrOcamlBasic QArith List.
-From VOPy Require Import QVec Cone Pareto ParetoQ Rect Ellipsoid FM RectCover Pessimistic Spec Tables Optimize Empirical DesignSpace.
+From VOPy Require Import QVec Cone Pareto ParetoQ Rect Ellipsoid FM RectCover Pessimistic Spec Tables Optimize Empirical DesignSpace Metrics Problem Adaptive.
 Extraction Language OCaml.
 Extraction "model.ml"
   QVec.dot QVec.inside QVec.dominates Cone.inside_batch Cone.eye
@@ -12,5 +12,7 @@ Extraction "model.ml"
   RectCover.rect_cov RectCover.rect_cov_margin Pessimistic.check_dominates Pessimistic.pess_dec Pessimistic.in_ext_polytope Pessimistic.line_seg_pt_intersect_at_dim
   Tables.pv_round_tab Tables.vg_round_tab Tables.vg_pess_tab Tables.vg_discard_tab Tables.au_round_tab Tables.au_dom Tables.au_cov Tables.au_hold
   Optimize.opt_discrete Optimize.index_vals Optimize.decoupled_ok Optimize.global_topq_ok
+  Metrics.smallm Metrics.delta Metrics.pcov_witness_ok Metrics.pcov_far_ok Metrics.f1 Problem.nearest
+  Adaptive.children Adaptive.centre
   DesignSpace.ds_update DesignSpace.mkpred
   Empirical.emp_init Empirical.step Empirical.run Empirical.predict1.
